@@ -6,7 +6,7 @@
    the bytes jsoniter writes, [parse_bytes] is an independent JSON reader (RFC 8259 lexer +
    LL(1) parser), [doc_* bs] is the intended document: rows grouped by runs of equal fingerprint. *)
 From Coq Require Import List NArith ZArith Bool Ascii String.
-From Qryn Require Import model.JsonStream proofs.JsonStreamProofs.
+From Qryn Require Import model.JsonStream proofs.JsonStreamProofs proofs.JsonSpliceProofs.
 Import ListNotations.
 Open Scope string_scope.
 Open Scope list_scope.
@@ -40,6 +40,21 @@ Proof. split; reflexivity. Qed.
 Theorem reader_inverts_printer : forall d, nums_ok d = true -> parse_bytes (render (tokens_of d)) = Some d.
 Proof. exact parse_bytes_render. Qed.
 Print Assumptions reader_inverts_printer.
+
+(* ... and the reader accepts nothing else: a token list is read as d exactly when, white space and
+   quoting style aside, it is the canonical serialisation of d (so the specification oracle cannot
+   accept a malformed body) *)
+Theorem reader_accepts_only_canonical : forall ts d, parse ts = Some d <-> prep ts = tokens_of d.
+Proof. exact parse_iff. Qed.
+Print Assumptions reader_accepts_only_canonical.
+
+(* the lexer is compositional: two texts that are readable on their own are readable when joined,
+   as the concatenation of their tokens, provided the second does not start with a number character *)
+Theorem lexer_compositional : forall a b ta tb,
+  lex_bytes a = Some ta -> lex_bytes b = Some tb -> delim_start b = true ->
+  lex_bytes (a ++ b)%string = Some (ta ++ tb).
+Proof. exact lex_bytes_app. Qed.
+Print Assumptions lexer_compositional.
 
 (* exportStreamsValue: for every list of batches without a failing entry (any number of series, any
    distribution over batches, empty batches, batch boundaries inside a series, io.EOF markers
@@ -129,6 +144,36 @@ Print Assumptions doc_wellformed_tempo_tags.
 Theorem doc_wellformed_labels : forall xs, parse_bytes (render (enc_labels xs)) = Some (doc_labels xs).
 Proof. exact labels_bytes. Qed.
 Print Assumptions doc_wellformed_labels.
+
+(* splicing endpoints: /series writes the stored label documents verbatim, the tempo Trace (JSON) and
+   Search handlers write what json.Marshal produced for every span / trace, between hand-written
+   chunks and commas. Whenever every piece is itself a JSON value not starting with a number
+   character (an object, as all of these are), the body is the one intended document *)
+Theorem doc_wellformed_series : forall xs ds, Forall2 piece_ok xs ds ->
+  parse_bytes (enc_series_bytes xs) = Some (doc_series_of ds).
+Proof. exact series_bytes. Qed.
+Print Assumptions doc_wellformed_series.
+
+Theorem doc_wellformed_trace : forall xs ds, Forall2 piece_ok xs ds ->
+  parse_bytes (enc_trace_bytes xs) = Some (doc_trace_of ds).
+Proof. exact trace_bytes. Qed.
+Print Assumptions doc_wellformed_trace.
+
+Theorem doc_wellformed_search : forall xs ds, Forall2 piece_ok xs ds ->
+  parse_bytes (enc_search_bytes xs) = Some (doc_search_of ds).
+Proof. exact search_bytes. Qed.
+Print Assumptions doc_wellformed_search.
+Example pieces_met :
+  Forall2 piece_ok ["{""a"":""b""}"; " {""x"" : [1, 2.5e3, true, null], ""y"": ""\ud83d\ude00""} "; "{}"]
+                   [JObj [("a", JStr "b")];
+                    JObj [("x", JArr [JNum "1"; JNum "2.5e3"; JBool true; JNull]);
+                          ("y", JStr (String (chr 240) (String (chr 159) (String (chr 152) (String (chr 128) EmptyString)))))];
+                    JObj []].
+Proof. repeat constructor; vm_compute; reflexivity. Qed.
+(* ... and it is not when a stored label text is not JSON (the recorded finding: the writer stores
+   strconv.Quote text, C04) *)
+Example series_with_bad_stored_text : parse_bytes (enc_series_bytes ["{""a"":""\x01""}"]) = None.
+Proof. vm_compute. reflexivity. Qed.
 
 (* regression witness of defect #24: what strconv.Quote wrote for the tag a<01>b is not JSON *)
 Example strconv_quote_is_not_json : parse_bytes "{""tagNames"": [""a\x01b""]}" = None.
